@@ -77,7 +77,7 @@ def run(ctx):
     run_ = pc.Run(ctx, "c08", bprogs=bprogs, mutations=nmut, formats=RT_FORMATS)
     d = run_.execute()
     v, cfg = pc.judge(ctx, MODULE_T, run_.trace, kd, f"fixtures + builder programs + mutations seed={ctx.seed}", boundary=pc.rt_boundary)
-    pc.classify(ctx, v, run_, "drv_parse", what_of)
+    pc.classify(ctx, v, run_, "drv_parse", what_of, group_of=lambda e: (e.get("fmt"), e.get("op"), what_of(e).split(": ", 1)[-1][:160] if e.get("op") == "rt" else e.get("ver")))
     selftest(ctx, run_.trace, cfg)
     lines = lib.read_lines(run_.trace)
     for want in ('"op":"bprog"', '"op":"rt","p2"', '"exact":true'):
